@@ -59,6 +59,12 @@ class JsonDocument : public detail::VariantOperators<const JsonDocument&> {
     return *this;
   }
 
+  template <typename T>
+  JsonDocument& operator=(T* src) {
+    set(src);
+    return *this;
+  }
+
   Allocator* allocator() const {
     return resources_.allocator();
   }
